@@ -47,6 +47,9 @@ BDelRange(lo, hi) == batch' = Append(batch, Op("delrange", lo, hi)) /\ UNCHANGED
 BMerge(k, d)      == batch' = Append(batch, Op("merge", k, d)) /\ UNCHANGED data
 Commit            == data' = ApplyBatch(data, batch) /\ batch' = <<>>
 Clear             == batch' = <<>> /\ UNCHANGED data
+\* maintenance (manual compaction of a range or of everything, memtable flush, size and
+\* key-count estimates) is logically invisible: neither the content nor the open batch changes
+Maint             == UNCHANGED <<data, batch>>
 
 -------------------------------------------------------------------------------
 (* Read side: pure functions of the committed content.                         *)
